@@ -215,14 +215,9 @@ async fn run_case(start: bool, groups: Vec<Vec<Call>>, sched: Vec<usize>) -> Str
                             };
                         }
                         Call::Open => {
-                            // the id is allocated (and registered) right after the closed check, before the
-                            // first scheduling point: record it now so that frames fed meanwhile can address it
-                            if !s.is_closed() {
-                                let mut g = sh2.lock().unwrap();
-                                let sid = g.next_sid;
-                                g.next_sid += 1;
-                                g.sids.insert(i, sid);
-                            }
+                            // the id is allocated (and the stream registered) when the task is granted its step
+                            // at `open.checked` -- not at the closed check: the controller records it there so that
+                            // frames fed meanwhile can address the stream
                             break match s.open_stream().await {
                                 Ok((st, rx)) => {
                                     assert_eq!(sh2.lock().unwrap().sids.get(&i).copied(), Some(st.id()));
@@ -366,6 +361,12 @@ async fn run_case(start: bool, groups: Vec<Vec<Call>>, sched: Vec<usize>) -> Str
                 {
                     let mut g = sh.lock().unwrap();
                     // remember a grant at a lock-acquiring point: if no new point is reached the task is queued
+                    if name == "open.checked" {
+                        // open_stream allocates the next id as soon as it resumes
+                        let sid = g.next_sid;
+                        g.next_sid += 1;
+                        g.sids.insert(t, sid);
+                    }
                     if name == "wf.before_writer" || name == "close.before_writer" {
                         g.last_point.insert(t, "queued".into());
                     } else {
